@@ -28,6 +28,9 @@ StrNum == {PStr(<<48, 49, 48>>), PStr(<<48, 56>>), PStr(<<48, 120, 49, 48>>), PS
            PStr(<<48, 98, 49>>), PStr(<<32, 55>>), PStr(<<48, 111, 55>>)}
 C11_Coerce == {PBin(op, n, x) : op \in ArithOps \cup CmpOps, n \in {PNum(7), PNum(0), PNum(8)}, x \in StrNum}
                 \cup {PBin(op, x, n) : op \in ArithOps \cup CmpOps, n \in {PNum(7), PNum(2)}, x \in StrNum}
+                \* a string counts as true exactly when it is not empty: blanks are characters
+                \cup {PBin(op, PBool(b), x) : op \in BoolOps \cup CmpOps, b \in BOOLEAN,
+                                               x \in {PStr(<<32>>), PStr(<<32, 9>>), PStr(<<10>>), PStr(<<32, 48>>), PStr(<<102, 97, 108, 115, 101>>)}}
 
 (* precedence and associativity: every pair of operators in both shapes     *)
 Triples == { <<PNum(7), PNum(2), PNum(3)>>, <<PStr(S7), PNum(2), PNum(3)>>, <<PStr(S7), PStr(<<50>>), PStr(<<51>>)>>,
@@ -148,6 +151,22 @@ C12_Case(id, ss, ctxk) ==
         accept |-> Check(ss, "pred"),
         cmds |-> <<FindAllCmd(<<Ref("p")>>)>>,
         texts |-> <<<<ba>>, <<bb>>, <<ba, ba>>>>]
+
+(* two transforms (or a transform and a predicate) in one source: each is    *)
+(* checked in an environment of its own - what one assigns does not type    *)
+(* the other's names                                                        *)
+C12_Writers == { <<SSet("x", PNum(1)), SRet(PStr(Sa))>>, <<SSet("x", PBool(TRUE)), SSet("y", PNum(2)), SRet(PStr(Sa))>>,
+                 <<SSet("x", PStr(Sa)), SRet(PVar("x"))>>, <<SRet(PStr(Sa))>> }
+C12_Readers == { <<SRet(PUn("head", PVar("x")))>>, <<SIf(PVar("x"), <<SRet(PStr(Sa))>>, <<>>), SRet(PStr(S7))>>,
+                 <<SRet(PBin("+", PVar("x"), PNum(1)))>>, <<SRet(PBin("-", PVar("y"), PNum(1)))>>, <<SRet(PBin("and", PVar("x"), PBool(TRUE)))>>,
+                 <<SSet("x", PNum(3)), SRet(PBin("*", PVar("x"), PNum(2)))>> }
+C12_Case2(id, w, r, order) ==
+  [id |-> id, defs |-> <<>>, ctx |-> "trans",
+   trans |-> IF order = 1 THEN <<[name |-> "f", stmts |-> w], [name |-> "g", stmts |-> r]>>
+                          ELSE <<[name |-> "g", stmts |-> r], [name |-> "f", stmts |-> w]>>,
+   accept |-> Check(w, "trans") /\ Check(r, "trans"),
+   cmds |-> <<[kind |-> "replace", amt |-> [k |-> "all"], body |-> <<La>>, with |-> <<WName("f"), WStr(<<124>>), WName("g")>>]>>,
+   texts |-> <<<<ba>>, <<bb, ba>>>>]
 
 (* ============================================================ C09, process *)
 (* transforms applied to arbitrary match text: `match` in every operand     *)
